@@ -592,15 +592,15 @@ func checkPLHandler(c *fw.Ctx, fn *ssa.Function) {
 			case "current":
 				switch {
 				case currentSrc && !proposedSrc:
-				case proposedSrc:
+				case proposedSrc && !currentSrc:
 					bad = "the current levels argument is the proposed content (" + sg + ")"
 				default:
-					unk = sg
+					unk = sg // neither, or an aggregate built from both (a change object)
 				}
 			case "proposed":
 				switch {
 				case proposedSrc && !currentSrc:
-				case currentSrc:
+				case currentSrc && !proposedSrc:
 					bad = "the proposed levels argument is the current content (" + sg + ")"
 				default:
 					unk = sg
